@@ -2,6 +2,7 @@ package sack
 
 import (
 	"errors"
+	"time"
 
 	"github.com/DataDog/datadog-traceroute/common"
 	V "github.com/DataDog/datadog-traceroute/zzverif"
@@ -79,4 +80,34 @@ func Verif_C20_handshake() {
 		V.Assert(!errors.As(err, &ns), "C20/silence-is-not-unsupported")
 		V.Assert(!common.CheckProbeRetryable("ReadHandshake", err), "C20/handshake-timeout-is-an-error")
 	}
+}
+
+// Verif_C08_handshake: ReadHandshake under a flood: K arbitrary packets that are not the awaited SYN-ACK arrive at
+// arbitrary times (each Read returns at the packet's arrival or at its deadline). The call returns an error no later
+// than 500 ms after it began — unrelated traffic cannot extend the handshake window.
+func Verif_C08_handshake() {
+	d, _, src, local, target := vFreshDriver()
+	lport := V.U16("lport")
+	K := V.ParamInt("flood", 2)
+	L := V.ParamInt("L", 40)
+	ta, la := target.Addr().As4(), local.As4()
+	for i := 0; i < K; i++ {
+		nz := V.Bytes("flood", L)
+		N.BoundArb4(nz)
+		if L >= 34 {
+			isHandshake := V.All(nz[9] == 6, V.BytesEq(nz[12:16], ta[:]), V.BytesEq(nz[16:20], la[:]),
+				N.BE16(nz[20:22]) == target.Port(), N.BE16(nz[22:24]) == lport, nz[33]&0x12 == 0x12)
+			V.Assume(!isHandshake)
+		}
+		src.Queue = append(src.Queue, nz)
+	}
+	src.Flood = true
+	start := V.NowNs()
+	err := d.ReadHandshake(lport)
+	elapsed := V.NowNs() - start
+	V.Reach("end")
+	V.Assert(err != nil, "C08/handshake-flood-does-not-establish")
+	V.Assert(elapsed <= int64(500*time.Millisecond), "C08/handshake-returns-within-its-timeout-under-flood")
+	var ns *NotSupportedError
+	V.Assert(!errors.As(err, &ns), "C20/silence-is-not-unsupported")
 }
